@@ -156,7 +156,7 @@ var c06Hooked = true
 
 func init() {
 	registerCases[c06Case]("C06", "exploration",
-		"10 pictures (sizes 16x16..100x65 incl. non-multiples of 16, 1-macroblock-wide, >= 4 macroblock rows; noise, gradient, many-colour, few-colour, regions, with alpha) x lossy options with at most 2 (thorough 3) fields away from the defaults (16 fields: Quality, Method, Preset, Segments, Partitions, Pass, filter strength/sharpness/type, SNS, Preprocessing, QMin/QMax, TargetSize, TargetPSNR, sharp YUV, Exact) x worker count {1: serial paths, 3: parallel paths under the deterministic default schedule}; plus every ordered pair of Methods 0..6 on a recycled (pooled) encoder for 3 textured pictures; the encoder's reconstruction planes, captured by an overlay wrapper around (*VP8Encoder).EncodeFrame, must equal the independent decoder's planes before the loop filter, and webp.Decode's planes when the frame's filter level is 0",
+		"10 pictures (sizes 16x16..100x65 incl. non-multiples of 16, 1-macroblock-wide, >= 4 macroblock rows; noise, gradient, many-colour, few-colour, regions, with alpha) x lossy options with at most 2 (thorough 3) fields away from the defaults (16 fields: Quality, Method, Preset, Segments, Partitions, Pass, filter strength/sharpness/type, SNS, Preprocessing, QMin/QMax, TargetSize, TargetPSNR, sharp YUV, Exact) x worker count {1: serial paths, 3: parallel paths under the deterministic default schedule}; plus every ordered pair of Methods 0..6 on a recycled (pooled) encoder for 3 textured pictures, plus two large pictures (more than 32768 tokens) x Partitions 0..3 x Method {4,0,6} x Quality {75,100}; the encoder's reconstruction planes, captured by an overlay wrapper around (*VP8Encoder).EncodeFrame, must equal the independent decoder's planes before the loop filter, and webp.Decode's planes when the frame's filter level is 0",
 		[]string{"reconstruction planes are read from VP8Encoder.yPlane/uPlane/vPlane right after EncodeFrame returns (overlay accessor; skipped and reported if the fields are renamed)", "pools never reuse", "independent decoder: vendored x/image vp8 with the loop filter switched off"},
 		func(e *fw.Env) int {
 			if e.Quick() {
@@ -171,13 +171,30 @@ func init() {
 			}
 			return func(c *choice.Ctx) caseI {
 				cs := &c06Case{Seed: e.Seed, Dev: map[string]int{}, PrevM: -1}
-				if c.PickFree(2, "part") == 1 {
+				part := c.PickFree(3, "part")
+				if part == 1 {
 					// recycled-encoder part: method pairs on textured pictures
 					seq := []c02Img{{48, 64, "noise", "opaque"}, {100, 65, "noise", "opaque"}, {64, 80, "regions4", "opaque"}}
 					cs.Img = seq[c.PickFree(len(seq), "img")]
 					cs.Workers = []int{1, 3}[c.PickFree(2, "workers")]
 					cs.PrevM = c.PickFree(7, "prevm")
 					cs.M = c.PickFree(7, "m")
+					return cs
+				}
+				if part == 2 {
+					// large noisy pictures (token stream longer than one token-buffer page) x partitions x method x quality
+					big := []c02Img{{200, 136, "noise", "opaque"}, {152, 200, "many", "opaque"}}
+					cs.Img = big[c.PickFree(len(big), "img")]
+					cs.Workers = []int{1, 3}[c.PickFree(2, "workers")]
+					if v := c.PickFree(4, "Partitions"); v > 0 {
+						cs.Dev["Partitions"] = v
+					}
+					if v := c.PickFree(3, "Method"); v > 0 {
+						cs.Dev["Method"] = []int{1, 6}[v-1] // Method 0 / 6
+					}
+					if v := c.PickFree(2, "Quality"); v > 0 {
+						cs.Dev["Quality"] = 4 // Quality 100
+					}
 					return cs
 				}
 				cs.Img = images[c.PickFree(len(images), "img")]
